@@ -1,6 +1,8 @@
 import P9Model.Client.Pool
 import P9Model.Client.Tie
 import P9Model.Conc.ClientMux
+import P9Model.Conc.RespPoolInv
+import P9Model.Gen.Layouts
 /-!
 # C10 — Client multiplexing: distinct tags/fids, replies reach their own caller, no hang
 -/
@@ -351,5 +353,56 @@ example :
     (runFrom { calls := [(1, .unsent), (2, .unsent)] }
       [.send 1, .send 2, .serverSend ⟨2, true⟩, .serverSend ⟨1, true⟩, .take 1, .handle 1, .finish 2, .take 1, .handle 1, .finish 1]).map
       (·.calls) = some [(1, .finished (.reply 1)), (2, .finished (.reply 2))] := by decide
+
+/-! ### recycled response objects (`Conc/RespPool.lean`): what makes "the slot of a call" private -/
+
+/-- **In every reachable state of the repaired client code** – any number of clients of the process,
+any interleaving of calls starting, failing to send, being answered, connections failing, calls
+returning – a response object in the pool is referenced by no pending map and its channel is empty,
+no object is registered twice, and a registered object's channel is empty. -/
+theorem pooled_responses_are_unreferenced (ls : List RespPool.Label) (s : RespPool.St)
+    (hf : ∀ l ∈ ls, RespPool.Fixed l) (h : RespPool.run {} ls = some s) : RespPool.Inv s :=
+  RespPool.run_inv ls {} s RespPool.inv_init hf h
+
+/-- **`handleOne` never blocks while holding the receive token** (reply path): the channel of the
+response registered under the reply's tag has room. -/
+theorem deliver_never_blocks (s : RespPool.St) (k : RespPool.Key) (o : Nat) (hi : RespPool.Inv s)
+    (h : RespPool.objOf s k = some o) : (RespPool.step s (.deliver k)).isSome = true := by
+  have hm := RespPool.objOf_mem h
+  have hnf : o ∉ s.full := fun hfm => hi.fullFree o hfm (List.mem_map.mpr ⟨(k, o), hm, rfl⟩)
+  simp [RespPool.step, h, hnf]
+
+/-- … and on the error path: every channel of the failing client's pending calls has room. -/
+theorem failAll_never_blocks (s : RespPool.St) (c : Nat) (hi : RespPool.Inv s) :
+    (RespPool.step s (.failAll c)).isSome = true := by
+  have : ((s.pending.filter (·.1.1 == c)).map (·.2)).any (· ∈ s.full) = false := by
+    rw [Bool.eq_false_iff]
+    intro hany
+    obtain ⟨o, ho, hof⟩ := List.any_eq_true.mp hany
+    exact hi.fullFree o (by simpa using hof) (RespPool.mem_objs_filter ho)
+  simp [RespPool.step, this]
+
+/-- **No response object serves two calls**: two registrations of one object are one registration. -/
+theorem no_shared_response (s : RespPool.St) (hi : RespPool.Inv s) (k1 k2 : RespPool.Key) (o : Nat)
+    (h1 : (k1, o) ∈ s.pending) (h2 : (k2, o) ∈ s.pending) : k1 = k2 := by
+  have := RespPool.map_inj_of_nodup (fun (x : RespPool.Key × Nat) => x.2) s.pending hi.objsNodup _ h1 _ h2 rfl
+  exact congrArg Prod.fst this
+
+/-- **D20, the code before the repair, as a witness**: client 0's call with tag 1 waits; its call
+with tag 2 fails in send and only returns the object to the pool; a call on client 1 gets that object;
+client 0's connection fails; the reply to client 1's call can never be delivered – `handleOne` of the
+healthy client blocks for good. -/
+theorem unrepaired_send_failure_blocks_a_healthy_client :
+    ((RespPool.run {} [.acquireNew (0, 1), .acquireNew (0, 2), .sendFailBuggy (0, 2), .acquire (1, 1) 1,
+        .failAll 0]).bind fun s => RespPool.step s (.deliver (1, 1))) = none ∧
+    ((RespPool.run {} [.acquireNew (0, 1), .acquireNew (0, 2), .sendFail (0, 2), .acquire (1, 1) 1,
+        .failAll 0]).bind fun s => RespPool.step s (.deliver (1, 1))).isSome = true := by
+  decide
+
+/-- **The code makes the `sendFail` move of the model** (regenerated from `(*Client).sendRecv`): when
+writing the request failed, the pending entry is deleted and the channel drained before the deferred
+`responsePool.Put`; that `Put` is the only one; a response's channel has room for exactly one value. -/
+theorem failed_send_leaves_nothing :
+    (Gen.sendFailureLeavesNothing && Gen.responsePutOnlyDeferred && Gen.doneChannelHoldsOne) = true := by decide
 
 end P9.C10
